@@ -2149,6 +2149,9 @@ def _classes_accepted(pm: T.Dict[ast.AST, ast.AST], node: ast.AST, var: str, sto
     return frozenset(acc) if acc is not None else frozenset({'*'})
 
 
+_FISSION_UNWRAPS: T.Dict[T.Tuple[int, str], T.Tuple[T.Tuple[str, str], ...]] = {}   # (function, loop variable) -> unwrappings done while the list was built
+
+
 def _attr_role(e: ast.AST, tv: str) -> T.Optional[str]:
     if isinstance(e, ast.Call) and not e.args and isinstance(e.func, ast.Attribute):
         e = e.func
@@ -2181,6 +2184,39 @@ def _role_of(fn: FuncNode, pm: T.Dict[ast.AST, ast.AST], loc: Locals, tv: str, n
                     rs.append(r_)
                 return '+'.join(rs)
             r = _attr_role(it, tv)
+            if r is None and isinstance(it, ast.Name):
+                # loop fission: the list iterated here was filled element by element from a part of the test in an earlier loop
+                fills = [c for c in ast.walk(fn) if isinstance(c, ast.Call) and call_method(c) == 'append' and recv(c) == it.id and len(c.args) == 1]
+                other = [c for c in ast.walk(fn) if isinstance(c, ast.Call) and recv(c) == it.id and call_method(c) in ('extend', 'insert', 'remove', 'pop', 'sort', 'reverse', 'clear')]
+                inits = [d for d in loc.defs.get(it.id, []) if d is not None]
+                if fills and not other and len(inits) == 1 and isinstance(inits[0], ast.List) and not inits[0].elts:
+                    floops = {id(x): x for f_ in fills for x in _enclosing(pm, f_)[:8] if isinstance(x, ast.For) and isinstance(x.target, ast.Name)
+                              and _attr_role(x.iter, tv) in ('cmd_args', 'depends')}
+                    if len(floops) == 1:
+                        fl_loop = next(iter(floops.values()))
+                        src_role = _attr_role(fl_loop.iter, tv)
+                        x_ = fl_loop.target.id  # type: ignore[union-attr]
+                        unw: T.List[T.Tuple[str, str]] = []
+                        okf = True
+                        for f_ in fills:
+                            e_ = f_.args[0]
+                            sites: T.List[T.Tuple[ast.AST, ast.AST]] = [(f_, e_)]
+                            if isinstance(e_, ast.Name) and e_.id != x_:
+                                sites = [(st_, st_.value) for st_ in ast.walk(fl_loop) if isinstance(st_, ast.Assign) and len(st_.targets) == 1
+                                         and isinstance(st_.targets[0], ast.Name) and st_.targets[0].id == e_.id]
+                                okf = okf and bool(sites) and _classes_accepted(pm, f_, x_, fl_loop, loc) == frozenset({'*'})
+                            for site, v_ in sites:
+                                g_ = _classes_accepted(pm, site, x_, fl_loop, loc)
+                                if isinstance(v_, ast.Name) and v_.id == x_:
+                                    okf = okf and g_ == frozenset({'*'})        # every other element is kept as it is
+                                elif isinstance(v_, ast.Attribute) and isinstance(v_.value, ast.Name) and v_.value.id == x_ and g_ is not None and '*' not in g_:
+                                    unw += [(v_.attr, k_) for k_ in sorted(g_)]
+                                else:
+                                    okf = False
+                        if okf:
+                            _FISSION_UNWRAPS[(id(fn), name)] = tuple(unw)
+                            return src_role
+                return None
             return r if r in ('cmd_args', 'depends') else None
         cur = par
     for d in loc.defs.get(name, []):
@@ -2263,6 +2299,7 @@ def _target_classes(fn: FuncNode, tv_loop: ast.For, sinks: T.List[T.Tuple[ast.AS
                     raise Undecided(f'{qn}: `{short(st_)}` is not a plain alias')
                 work.append((st_, v2, cls if outer is None else (outer if '*' in cls else frozenset(cls)), depth_ + 1, unwraps))
             continue
+        unwraps = unwraps + _FISSION_UNWRAPS.get((id(fn), base.id), ())
         for r1 in role.split('+'):
             out.setdefault(r1 + role_suffix, set()).update(cls)
             for attr_, k_ in unwraps:
